@@ -6,6 +6,7 @@ import (
 	"os"
 	"path/filepath"
 	"sort"
+	"strconv"
 	"strings"
 	"sync"
 	"time"
@@ -33,7 +34,15 @@ type c14Inv struct {
 }
 
 func (i c14Inv) String() string {
-	s := "gts " + strings.Join(i.Args, " ") + " < " + i.Stdin
+	// (arguments containing blanks, line breaks or quotes are quoted: the string also keys the memo of uncached runs)
+	qa := make([]string, len(i.Args))
+	for k, a := range i.Args {
+		qa[k] = a
+		if a == "" || strings.ContainsAny(a, " \t\n\"'") {
+			qa[k] = strconv.Quote(a)
+		}
+	}
+	s := "gts " + strings.Join(qa, " ") + " < " + i.Stdin
 	if i.Kill {
 		s = "KILLED-MID-OUTPUT: " + s
 	}
@@ -118,16 +127,16 @@ func c14Setup() {
 		a := c14Record("RECA", "acgtacggtacctagcatgcaagt", true, 0)
 		b := c14Record("RECB", "ttgacgtacgatcgatcggcatgcaacc", false, 1)
 		c14Inputs = map[string][]byte{
-			"A":   []byte(a.String()),
-			"B":   []byte(b.String()),
-			"M":   []byte(a.String() + b.String()),
-			"BAD": []byte("this is not a sequence file\nat all\n"),
-			"AFA": []byte(">RECA.1 RECA record\nacgtacggtacctagcatgcaagt\n"),
+			"A":     []byte(a.String()),
+			"B":     []byte(b.String()),
+			"M":     []byte(a.String() + b.String()),
+			"BAD":   []byte("this is not a sequence file\nat all\n"),
+			"AFA":   []byte(">RECA.1 RECA record\nacgtacggtacctagcatgcaagt\n"),
 			"TRUNC": []byte(a.String()[:len(a.String())-40]),
 			// a long record followed by a short one: a locator valid for the first makes the command fail on the second, after partial output
 			"LS": []byte(c14Record("LONG", "acgtacggtacctagcatgcaagtacgtacggtacctagca", false, 3).String() + a.String()),
 			// output above 32 KiB (the inflate window / io.Copy buffer of the cache replay)
-			"BIG": []byte(c14Record("BIGR", strings.Repeat("acgtacggtacctagcatgcaagtacgtacggtacctagca", 1100), false, 3).String()),
+			"BIG":   []byte(c14Record("BIGR", strings.Repeat("acgtacggtacctagcatgcaagtacgtacggtacctagca", 1100), false, 3).String()),
 			"BIGFA": []byte(">big one\n" + strings.Repeat("acgtacggtacctagcatgcaagtacgtacggtacctagcattgacgtacgatcgatcggcatgcaacc\n", 900)),
 			// a feature with a repeated qualifier (the value separator of gts query is visible)
 			"Q": []byte(func() string {
@@ -136,7 +145,7 @@ func c14Setup() {
 				return q.String()
 			}()),
 			// a long record followed by a short one (a locator valid for the first fails on the second after >32 KiB of output), and by a truncated one
-			"BIGLS": []byte(c14Record("BIGR", strings.Repeat("acgtacggtacctagcatgcaagtacgtacggtacctagca", 1100), false, 3).String() + a.String()),
+			"BIGLS":    []byte(c14Record("BIGR", strings.Repeat("acgtacggtacctagcatgcaagtacgtacggtacctagca", 1100), false, 3).String() + a.String()),
 			"BIGTRUNC": []byte(c14Record("BIGR", strings.Repeat("acgtacggtacctagcatgcaagtacgtacggtacctagca", 1100), false, 3).String() + a.String()[:len(a.String())-40]),
 			// two records without join/complement-join features (gts repair handles them without panicking); the first has a cut gene
 			"P": []byte(func() string {
@@ -364,6 +373,16 @@ func c14Alphabet(thorough bool) []c14Inv {
 	add(a, "search", "-e", "@acgu")
 	add(a, "search", "-e", "@acgt")
 	add(a, "search", "@acgu")
+	// a list of values against the single value made by joining them with a separator (a key that flattens the list)
+	for _, sep := range []string{"|", "/", ",", " ", ";", "\n"} {
+		add(a, "select", "CDS/gene=g2"+sep+"gene")
+		add(a, "extract", "2..5"+sep+"7..9")
+		add(a, "define", "-q", "note=x"+sep+"gene=a", "gene", "2..5")
+		add(a, "query", "-n", "gene"+sep+"note")
+	}
+	add(a, "select", "CDS/gene=g2", "gene")
+	add(a, "extract", "2..5", "7..9")
+	add(a, "define", "-q", "note=x", "-q", "gene=a", "gene", "2..5")
 	add(a, "select", "gene/gene=g1", "CDS")
 	add(a, "select", "gene/gene=g1|CDS")
 	add(a, "select", "gene/CDS")
@@ -532,7 +551,7 @@ func c14Eval(c c14Case) (ok bool, sig, detail string) {
 }
 
 func init() {
-	register(&Check{ID: "C14", Level: "model_checking", Quick: 280 * time.Second, Thor: 45 * time.Minute,
+	register(&Check{ID: "C14", Level: "model_checking", Quick: 420 * time.Second, Thor: 45 * time.Minute,
 		Run: func(r *engine.Run) bool {
 			c14Setup()
 			defer os.RemoveAll(c14Dir)
